@@ -136,3 +136,42 @@ def frame_through_history(data, skip=()):
     global COUNT
     COUNT += 1
     return data
+
+
+def lod_through_history(lod, extra=None, keys=()):
+    """ListOfDicts counterpart: the item dicts get rotated contents in place, the list is used through its
+    non-modifying methods (and `extra(lod)`), then every item gets its own contents back in place.
+    `keys`: keys present in every item (for sort / unique / group_by)."""
+    global COUNT
+    if len(lod) < 2:
+        if extra is not None:
+            _quiet(extra, lod)
+        return lod
+    orig = [dict(it) for it in lod]
+    rolled = orig[-1:] + orig[:-1]
+    for it, d in zip(lod, rolled):
+        it.clear()
+        it.update(d)
+    _quiet(lod.to_string)
+    _quiet(lod.copy)
+    _quiet(lod.deepcopy)
+    _quiet(lod.head, 2)
+    _quiet(lod.tail, 2)
+    _quiet(lod.reverse)
+    _quiet(lod.keys)
+    _quiet(lambda: lod.filter(lambda x: True))
+    for k in list(keys)[:2]:
+        _quiet(lambda: lod.sort(**{k: 1}))
+        _quiet(lambda: lod.sort(**{k: -1}))
+        _quiet(lod.unique, k)
+        _quiet(lambda: lod.pluck(k))
+        _quiet(lambda: lod.semi_join(lod.head(1), k))
+        _quiet(lambda: lod.anti_join(lod.head(1), k))
+        _quiet(lambda: lod.deepcopy().full_join(lod.head(1).deepcopy(), k))
+    if extra is not None:
+        _quiet(extra, lod)
+    for it, d in zip(lod, orig):
+        it.clear()
+        it.update(d)
+    COUNT += 1
+    return lod
